@@ -216,7 +216,7 @@ class Write(object):
             # Another option would be to create a special class
             # for file paths to be used as a data part of a value.
             # The used variant is less general, but practical.
-            if data == filepath:
+            if data == filepath or data == outputc.get("filepath"):
                 yield val
                 continue
 
